@@ -500,7 +500,6 @@ func edgeOfTest(b *ssa.BasicBlock, pred func(*ssa.BinOp) bool) bool {
 	return false
 }
 
-
 // valueExpr renders a string-valued SSA expression structurally (go/ssa has
 // no CSE): calls by callee and argument expressions, field loads by path.
 func valueExpr(c *Ctx, v ssa.Value, depth int) string {
